@@ -4,3 +4,6 @@ use crate::rt::*;
 pub fn run(_cfg: &Cfg, _rep: &mut Report) -> PropMeta {
     PropMeta { id: "C03", level: "exploration", rule: "not built", assumptions: vec![], exhaustive: false, floor: 1 }
 }
+
+/// CKKS part of the C06 monitors (filled in with the CKKS program machine).
+pub fn c06_hook(_cfg: &Cfg, _rep: &mut Report) {}
